@@ -504,6 +504,17 @@ func (s *vKindSys) Enabled() []vOp {
 		}
 	}
 	ops = append(ops, vOp{K: "Flush"})
+	if !s.noPrepared {
+		// adds that must be refused, on every id whatever its status (see C01)
+		for _, id := range s.ids {
+			for b := 0; b < 3; b++ {
+				if b == 0 && s.cfg.Metric != Cosine {
+					continue
+				}
+				ops = append(ops, vOp{K: "BadAdd", A: int(id), B: b})
+			}
+		}
+	}
 	return ops
 }
 
@@ -534,6 +545,11 @@ func (s *vKindSys) Apply(op vOp, hist []vOp, check bool) {
 		}
 	}
 	switch op.K {
+	case "BadAdd":
+		err := s.idx.Add(*NewVectorNodeWithID(uint32(op.A), vBadVector(s.cfg.Dim, op.B)))
+		if check && err == nil {
+			s.c.Violation("add-result", "invalid-vector-accepted", s.cfgS, vHistStrings(append(hist, op)), fmt.Sprintf("Add(%d, invalid vector kind %d) returned nil", op.A, op.B))
+		}
 	case "Add":
 		raw := s.vals[op.B]
 		arg := vCopyVec(raw)
@@ -1400,6 +1416,14 @@ func init() {
 			maxN := 70
 			if tier == "thorough" {
 				maxN = 300
+			}
+			bdepth := 3
+			if tier == "thorough" {
+				bdepth = 4
+			}
+			for _, cfg := range vSweepCfgs()[:7] {
+				cfg := cfg
+				sh = append(sh, vShard{Name: "builders/" + strings.ReplaceAll(cfg.String(), " ", ","), Run: func(c *vCtx) { vVecBuilderShard(c, cfg, bdepth) }})
 			}
 			for _, cfg := range vSweepCfgs() {
 				cfg := cfg
